@@ -83,6 +83,8 @@ def predicate(c):
             bad.append((KEY_CROSS, "after a Kafka error left the stream misaligned, ErrNoProgress did not close the Conn and a later "
                                    "operation succeeded on bytes of a foreign frame: " + c["go"]))
         return bad
+    if "drain" in f:
+        return drain_predicate(c, f)
     if "exh" in f and len(r) == 2:
         (c1, x1), (c2, x2) = r
         k1, k2 = kind(c1), kind(c2)
@@ -120,6 +122,65 @@ def predicate(c):
         elif x1 != "1":
             key = KEY_APIV if op.startswith("apiversions") else f"C17-not-closed-on-cut-{op}"
             bad.append((key, f"{op}: response cut at byte {c['args'].split(' ')[-1]}: {c1[:30]} but the Conn was not closed"))
+    return bad
+
+
+def parse_msgs(txt):
+    txt = txt.strip()
+    if not (txt.startswith("[") and txt.endswith("]")):
+        return None
+    body = txt[1:-1]
+    return [] if body == "" else body.split(";")
+
+
+def drain_predicate(c, f):
+    """fetch + ReadMessage until error + Close (no model: the message-set reader is C02's).
+    C17: with the response cut at byte k the records delivered are a prefix of the records sent
+    and only records wholly received; Close reports a non-Kafka error and the Conn is closed;
+    never a panic or hang.  Without a cut: every record, io.EOF, Close nil, next operation ok."""
+    bad = []
+    go = c["go"].split(" ")
+    tok = go[0]
+    body, _, cflag = tok.rpartition("~")
+    a = c["args"].split(" ")
+    cut = a[3] if len(a) > 3 else "-"
+    if not body.startswith("drain:"):
+        return [("C17-drain-" + kind(body), f"fetch+drain outcome {body[:40]}")]
+    head, sep, mtxt = body[len("drain:"):].rpartition(":[")
+    msgs = parse_msgs("[" + mtxt) if sep else None
+    want = parse_msgs(f.get("want", "[]")) or []
+    recends = [int(x) for x in f.get("recends", "").split("/") if x]
+    if msgs is None:
+        return [("C17-drain-unparsable", tok[:80])]
+
+    def take_class(h):
+        for pre in ("kafka:", "unread:", "fmt:"):
+            if h.startswith(pre):
+                x, _, rest = h[len(pre):].partition(":")
+                return pre + x, rest
+        if h.startswith("other:"):
+            # the message may contain ':'; the read class that follows is a simple word
+            x, _, rest = h.rpartition(":")
+            return x, rest
+        x, _, rest = h.partition(":")
+        return x, rest
+    closecls, readcls = take_class(head)
+    if msgs != want[:len(msgs)]:
+        bad.append(("C17-drain-fabricated-record", f"delivered {msgs} is not a prefix of the records sent {want}"))
+    if cut == "-":
+        if msgs != want or closecls != "ok" or readcls != "eof" or cflag != "0":
+            bad.append(("C17-drain-complete-response", f"complete response: {tok[:120]}"))
+        if len(go) > 1 and kind(go[1].rpartition("~")[0]) != "ok":
+            bad.append(("C11-misaligned-after-drain", f"operation after a completely read batch: {go[1][:60]}"))
+    else:
+        k = int(cut, 16)
+        nrecv = sum(1 for p in recends if p <= k)
+        if len(msgs) > nrecv:
+            bad.append(("C17-drain-partial-record-delivered", f"cut at {k}: {len(msgs)} records delivered, only {nrecv} wholly received"))
+        if closecls == "ok" or closecls.startswith("kafka"):
+            bad.append(("C17-drain-cut-not-reported", f"cut at {k}: Close returned {closecls} (read loop ended with {readcls})"))
+        elif cflag != "1":
+            bad.append(("C17-drain-cut-conn-not-closed", f"cut at {k}: Close returned {closecls} but the Conn was kept"))
     return bad
 
 
@@ -179,7 +240,7 @@ def evaluate(cases, res, want):
     """want(feats) selects the cases of this evaluation. Returns the correspondence dict."""
     sel = [c for c in cases if want(feats_of(c))]
     failures, notes = [], []
-    bad = L.diff_cases(sel, res)
+    bad = L.diff_cases([c for c in sel if "drain" not in feats_of(c)], res)
     for c in bad[:10]:
         pv = predicate(c)
         detail = json.dumps(dict(case=c["line"][:1500], go=c["go"][:300], model=str(c.get("model"))[:300], feats=c["feats"]))
@@ -208,7 +269,8 @@ def evaluate(cases, res, want):
     triv = set()
     ev, dn, hist = L.coverage_counts(sel, trivial_feats=("",))
     # non-trivial: an error code other than 0, or a cut
-    dn = len({c["line"] for c in sel if ("cut" in feats_of(c)) or feats_of(c).get("code", "0") != "0" or "cross" in feats_of(c)})
+    dn = len({c["line"] for c in sel if ("cut" in feats_of(c)) or ("drain" in feats_of(c) and not c["args"].endswith(" -"))
+              or feats_of(c).get("code", "0") not in ("0", True) or "cross" in feats_of(c)})
     hist = {}
     for c in sel:
         f = feats_of(c)
@@ -226,16 +288,19 @@ RULE = ("PART A (exhaustive, no randomness in the structure): every (operation, 
         "field values from one PRNG (VERIF_SEED); result classes of both operations, decoded values and whether the Conn closed its "
         "net.Conn, real kafka.Conn vs conn_do.  PART B: every (operation, version) x {success, error} response x cut positions "
         "(quick: boundaries of every field + fixed sample; thorough: every byte).  A case is non-trivial when it carries a non-zero "
-        "error code or a cut; distinct by the full case line.")
+        "error code or a cut; distinct by the full case line.  PART C (no model; predicate only): fetch v2/v5/v10 with 1..3 records "
+        "(magic 2) or 1..2 messages (magic 1), ReadMessage until error then Close, every cut position: the records delivered must be a "
+        "prefix of those sent and wholly received, Close must report a non-Kafka error and close the Conn.")
 
 
 def correspondence(ctx):
     cases, res = run_cases(ctx)
     ev = evaluate(cases, res, lambda f: True)
     cut_keys = (KEY_APIV, KEY_FCLOSE, KEY_TAIL)
-    failures = [f for f in ev["failures"] if f.get("key") not in cut_keys]
+    is_cut = lambda k: k in cut_keys or str(k).startswith("C17-drain")
+    failures = [f for f in ev["failures"] if not is_cut(f.get("key"))]
     notes = ev["notes"] + ["C17 (Conn half) finding, reported through conn_cut_cases: " + f["key"] + ": " + f["what"][:200]
-                           for f in ev["failures"] if f.get("key") in cut_keys]
+                           for f in ev["failures"] if is_cut(f.get("key"))]
     sel = ev["sel"]
     n_exh = sum(1 for c in sel if "exh" in feats_of(c))
     samples = [c["line"][:260] + " | " + c["go"][:120] + " | " + c["feats"]
@@ -244,13 +309,14 @@ def correspondence(ctx):
                 rule=RULE, samples=samples, failures=failures, notes=notes,
                 extra=dict(exhaustive=True,
                            exhaustive_scope=f"PART A: the finite product (operation, version) x error field x error code set x following operation, {n_exh} cases, enumerated completely; PART B (cut positions) is complete only in the thorough tier",
-                           cut_cases=sum(1 for c in sel if "cut" in feats_of(c))))
+                           cut_cases=sum(1 for c in sel if "cut" in feats_of(c)),
+                           drain_cases=sum(1 for c in sel if "drain" in feats_of(c))))
 
 
 def conn_cut_cases(ctx):
     """The truncation cases only (Conn half of C17), same dict shape as correspondence()."""
     cases, res = run_cases(ctx)
-    ev = evaluate(cases, res, lambda f: "cut" in f)
+    ev = evaluate(cases, res, lambda f: "cut" in f or "drain" in f)
     sel = ev["sel"]
     samples = [c["line"][:260] + " | " + c["go"][:120] + " | " + c["feats"] for c in (sel[:2] + sel[len(sel)//2:len(sel)//2+2] + sel[-2:])]
     return dict(evaluations=ev["evaluations"], distinct_nontrivial=ev["distinct_nontrivial"], hist=ev["hist"],
